@@ -1,2 +1,6 @@
 import BufrModel.Basic
 import BufrModel.Bits
+import BufrModel.TableTypes
+import BufrModel.Core
+import BufrModel.Ops
+import BufrModel.Expand
